@@ -102,18 +102,30 @@ def lockstep(g, a, b, level, info, skip_b=(), evs='ab'):
 def rename(g, chart, level, canary):
     n = chart['N']
     if level.get('subsets') == 'few':
-        masks = [1, 2, (1 << n) - 1, (1 << n) - 2, 5 % (1 << n)]
+        masks = [1, 2, (1 << n) - 1, (1 << n) - 2, 5 % (1 << n), 0]
         mask = masks[g.choice('mask', len(masks))]
     else:
-        mask = 1 + g.choice('mask', (1 << n) - 1)
+        mask = g.choice('mask', 1 << n)
     key = ('c17r', mask)
     if ('chart', key) not in g.cache:
         sc, trs, cm = cg.build(chart, 'id', _code)
-        newnames = [cm.names[i] + ('x' if mask >> i & 1 else '') for i in range(n)]
         internal_before = [t.internal for t in trs]
-        for i in range(n):
-            if mask >> i & 1:
+        if mask == 0:
+            # "shift": every state takes the name of its successor in name order (the last one gets a suffix),
+            # applied to a chart that was already executed once -- names are re-used, the order is preserved
+            from sismic.interpreter import Interpreter
+            warm = Interpreter(sc, initial_context={'G': lambda *a: False, 'A': lambda *a: None, 'P': lambda *a: None})
+            warm.execute_once()
+            warm.queue('a').execute_once()
+            newnames = [cm.names[i + 1] if i + 1 < n else cm.names[i] + 'x' for i in range(n)]
+            for i in reversed(range(n)):
                 sc.rename_state(cm.names[i], newnames[i])
+            mask = (1 << n) - 1
+        else:
+            newnames = [cm.names[i] + ('x' if mask >> i & 1 else '') for i in range(n)]
+            for i in range(n):
+                if mask >> i & 1:
+                    sc.rename_state(cm.names[i], newnames[i])
         g.cache[('chart', key)] = (sc, trs, cg.CM(dict(chart, names=newnames)), internal_before)
     sc2, trs2, cm2, internal_before = g.cache[('chart', key)]
     a = Inst(g, chart, 'id', cache_key=('c17o',), code_hook=_hook)
